@@ -381,7 +381,7 @@ func (r *schedRun) scenario(outDir string, sc schedScenario, n, t int) {
 	}
 	limit := 60
 	if r.tier == "thorough" {
-		limit = 1500
+		limit = 600
 	}
 	if len(plans) > limit {
 		// all single pre-emptions, then a sample of the rest
